@@ -346,7 +346,7 @@ def classify(c, line, w=None):
         return 'valid' if T.name() in c else 'invalid'
     if kw == 'delb':
         bs = names()
-        if len(bs) == 0:
+        if len(bs) == 0 or len(set(map(tok, bs))) != len(bs):
             return 'ooc'
         if any(b not in c or c.orderOf(b) != 0 for b in bs):
             return 'invalid'
